@@ -132,6 +132,9 @@ def call_np(interp, name, args, kwargs, lineno):
             return x
         a = snap(x)
         if a.size().is_const() and a.size().const_value() == 1:
+            if a.segs is not None:
+                sg = [s_ for s_ in a.segs if not s_.size().is_zero()][0]
+                return sg.at(tuple(ZERO for _ in sg.shape))
             return a.at(tuple(ZERO for _ in a.shape))
         key = ('reduce', name, interp.cur_file, lineno)
         interp.reductions = getattr(interp, 'reductions', {})
